@@ -889,16 +889,18 @@ def validate(ctx, recs, report, shards=2):
 def explore(ctx, calls, triples_design, triples_export, plans):
     """all TLC enumeration runs side by side -> (behaviours, geometry cases, npy cases)"""
     from ..sidebyside import in_parallel
-    design = mc_model(ctx, calls, triples_design, False)
+    design = mc_model(ctx, calls, triples_design, False) if triples_design else None
     export = mc_model(ctx, calls, triples_export, True)
     cas = ctx.model(ctx.spec("array", "StoreCasesMC.tla"), {"Plans": TLA(plans)}, invariants=["GeomOK", "NpyOK"])
-    res = in_parallel([lambda: ctx.tlc(design[0], design[1], label="design: all interleavings", timeout=2400),
+    res = in_parallel([(lambda: ctx.tlc(design[0], design[1], label="design: all interleavings", timeout=2400)) if design else (lambda: None),
                        lambda: ctx.tlc_cases(export[0], export[1], label="design+behaviours", timeout=2400)[0],
                        lambda: ctx.tlc_cases(cas[0], cas[1], label="cases: geometry + npy stack", timeout=2400)[0]])
-    behs = res[1]
-    for b in behs:
+    import json
+    behs = sorted(res[1], key=lambda b: json.dumps([b["c"], b["lm"], b["sm"], [(e["a"], e["k"]) for e in b["ev"]]]))
+    for b in behs:                          # (TLC's dump order depends on its worker threads: sort for determinism)
         b["call"] = calls[b["c"] - 1]
-    return behs, [c for c in res[2] if c["c"]["fam"] == "geom"], [c for c in res[2] if c["c"]["fam"] == "npy"]
+    cases = sorted(res[2], key=lambda c: json.dumps(c["c"], sort_keys=True))
+    return behs, [c for c in cases if c["c"]["fam"] == "geom"], [c for c in cases if c["c"]["fam"] == "npy"]
 
 
 def _any_work(tagged):
@@ -991,7 +993,7 @@ def run(ctx):
     design = [(c, lm, sm) for c in range(1, len(calls) + 1) for lm in ("none", "auto", "user") for sm in SMODES]
     export = export_triples(calls, ctx.quick)
     behs, gcases, ncases = explore(ctx, calls, design, export, sizes(ctx))
-    cap_b, cap_g = ctx.pick(400, 6000), ctx.pick(1200, 10 ** 9)
+    cap_b, cap_g = ctx.pick(400, 4000), ctx.pick(1200, 10 ** 9)
     sampled = False
     nbeh = len(behs)
     if len(behs) > cap_b:
@@ -1007,7 +1009,7 @@ def run(ctx):
         sampled = True
     gitems = [(c["c"], c["e"], ctx.rng.randrange(168), "g%d" % i) for i, c in enumerate(gcases)]
     nitems = [(c["c"], c["e"], ctx.rng.randrange(60), "n%d" % i, ctx.scratch) for i, c in enumerate(ncases)]
-    sitems = gen_items(ctx.rng, ctx.pick(400, 6000), "s")
+    sitems = gen_items(ctx.rng, ctx.pick(400, 4000), "s")
     recs = judge_all(ctx, behs, gitems, nitems, sitems, ctx.violation, ctx.count)
     ctx.sample({"behaviour": {"call": behs[0]["call"], "lock": behs[0]["lm"], "mode": behs[0]["sm"],
                               "steps": [(e["a"], e["k"]) for e in behs[0]["ev"]]}})
@@ -1116,9 +1118,8 @@ def selftest(ctx):
                (4, "user", "nowret"), (5, "user", "lazy"), (3, "auto", "lazyret")]
     plans = "{" + ", ".join([plan("geom", [(2,), (3,)], (0, 2), (1, 2), (0, 1)), plan("geom", [(2, 2)], (0, 1), (1,), (0, 1)),
                              plan("npy", [(3,), (2, 3)])]) + "}"
-    behs, gcases, ncases = explore(ctx, calls, triples, triples, plans)
+    behs, gcases, ncases = explore(ctx, calls, None, triples, plans)
     rng = random.Random(11)
-    behs = sorted(behs, key=lambda b: (b["c"], b["lm"], b["sm"], str(b["ev"])))
     behs = rng.sample(behs, min(len(behs), 24))
     gcases = rng.sample(gcases, min(len(gcases), 30))
     gitems = [(c["c"], c["e"], rng.randrange(168), "g%d" % i) for i, c in enumerate(gcases)]
